@@ -264,7 +264,10 @@ fn check_inner(c: &Case, rep: &mut Rep) -> Result<(), String> {
             Ok(())
         };
         // queries issued while parsing is still running may end early: only prefix correctness then
-        let complete = !c.is_query || parsed_before_stream;
+        // (a query that is created while the file is still being parsed has to wait for the rest as well: "for every
+        // arrival pattern of parsed messages")
+        let complete = true;
+        let _ = parsed_before_stream;
         verify(&mut s, id, w0, "initial window", complete)?;
         // make sure everything is parsed before the rest
         ensure!(s.c.wait_for(Duration::from_secs(15), &|log| log.iter().any(|f| matches!(f, Frame::FileInfo(n) if *n as usize >= total))), "file never reported as parsed");
